@@ -435,6 +435,35 @@ def run(repo, rep):
     rep.floor("C09-e", 6)
     rule_round5(repo, rep)
     rule_pool_scale_fits(repo, rep)
+    from .shared import loop_shared_clone_lint
+
+    rep.clause("C09-i", "quantisation records that get per-iteration values (the per-group slices of per-channel weight scales) are cloned per iteration: a record cloned before the loop is shared by every tensor it was given to")
+    loop_shared_clone_lint(repo, rep, "C09-i", ["tflite_graph_optimiser", "graph_optimiser_util", "lstm", "softmax", "weight_compressor", "scheduler"],
+                           "grouped CONV_2D with per-channel scales: every group's weight tensor gets the last group's scales and the packed multipliers of the other groups are those of other channels")
+    rep.floor("C09-i", 1)
+    rep.clause("C09-k", "the quantisation attached to an NPU feature map is read from the tensor the feature map was created from (reversed operands swap IFM and IFM2 of the command, not of the pass)")
+    hn_ = repo.mod("high_level_command_to_npu_op")
+    npair = 0
+    for q_, fn_ in hn_.functions.items():
+        made = {}
+        for st in ast.walk(fn_):
+            if isinstance(st, ast.Assign) and isinstance(st.value, ast.Call) and call_name(st.value) == "create_feature_map" and st.value.args:
+                made[str(norm(st.targets[0]))] = str(norm(st.value.args[0]))
+        for st in ast.walk(fn_):
+            if isinstance(st, ast.Assign) and isinstance(st.targets[0], ast.Attribute) and st.targets[0].attr == "quantization" and isinstance(st.value, ast.Call) and (call_name(st.value) or "").startswith("get_") and len(st.value.args) >= 2:
+                fm = str(norm(st.targets[0].value))
+                if fm in made:
+                    npair += 1
+                    got = str(norm(st.value.args[1]))
+                    rep.check(got == made[fm], "C09-k", f"ethosu/vela/high_level_command_to_npu_op.py:{q_}", f"`{fm}` is created from `{made[fm]}` and takes its quantisation from the same tensor",
+                              f"quantisation is read from `{got}`: for a binary elementwise operator with reversed operands both NPU operands then carry one scale and OPA / OPB / OFM_SCALE are derived from (s1, s1, so)")
+    if npair < 3:
+        raise AnalysisError(f"feature map / quantisation pairs in high_level_command_to_npu_op: {npair}")
+    rep.floor("C09-k", 3)
+    rep.clause("C09-j", "whether a rescale is emitted at all is decided on exact equality of the scales (a tolerance drops the rescale of nearly equal scales) [rule shared with C16-e]")
+    from . import c16 as _c16
+
+    rep.run_borrowed(_c16, {"C16-e": "C09-j"}, repo, only_sites=("is_scaling_equal",))
     rep.clause("C09-f", "a scale register write is elided only when both emitted words (multiplier payload and shift parameter) equal the last write [rule shared with C06-e]")
     from . import c06
 
@@ -544,8 +573,9 @@ def rule_pool_scale_fits(repo, rep, rule="C09-h"):
     tr = num(lambda v: float(_m.trunc(v)))
     ce = num(lambda v: float(_m.ceil(v)))
     wd = num(float)
+    rnd = num(lambda v: float(round(v)))  # numpy.round: half to even, as Python's round
     ext = {"math.frexp": num(_m.frexp), "numpy.trunc": tr, "np.trunc": tr, "math.ceil": num(_m.ceil), "numpy.ceil": ce, "np.ceil": ce,
-           "np.double": wd, "numpy.double": wd, "np.float64": wd, "numpy.float64": wd, "np.float32": wd, "numpy.float32": wd}
+           "np.round": rnd, "numpy.round": rnd, "np.rint": rnd, "numpy.rint": rnd, "np.double": wd, "numpy.double": wd, "np.float64": wd, "numpy.float64": wd, "np.float32": wd, "numpy.float32": wd}
     it = Interp(repo, gen, externs=ext)
     wrong = None
     pts = 0
